@@ -358,11 +358,14 @@ EXPECT_COMP_OP = ('(defn comp-op [op a1 a-rest] "Helper for shadow comparison op
                   '(zip (+ #(a1) a-rest) a-rest) (op x y))) True))')
 EXPECT_IMPORT = "(import functools [reduce] operator)"
 SKIPPED_DEFOPS = ("and", "or")      # C02's operators; their bodies are outside this fragment
+# ... but comp-op calls hy.pyops.and (through the shadow fallback of the `and` macro), so its text is pinned
+EXPECT_AND = ('(defop and [#* args] ["logical conjuction" :nullary "True" :unary "x"] (if (= (len args) 0) True '
+              '(if (= (len args) 1) (get args 0) (reduce (fn [x y] (and x y)) args))))')
 SKIPPED_DEFNS = ("get", "cut")
 
 
 def doc_expr(src, what, arg=False):
-    """a documentation row such as '0', '+x', '1 / x', 'True' as a pexpr term"""
+    """a documentation row such as '0', '+x', '1 / x', 'True' as a dexpr term"""
     try:
         e = ast.parse(src, mode="eval").body
     except SyntaxError:
@@ -370,13 +373,13 @@ def doc_expr(src, what, arg=False):
 
     def go(n):
         if isinstance(n, ast.Constant):
-            return "(PConst %s)" % coq_const(n.value, what)
+            return "(DConst %s)" % coq_const(n.value, what)
         if arg and isinstance(n, ast.Name) and n.id == "x":
-            return "(PArg 0)"
+            return "DX"
         if isinstance(n, ast.UnaryOp) and type(n.op).__name__ in UOPS:
-            return "(PUn %s %s)" % (type(n.op).__name__, go(n.operand))
+            return "(DUn %s %s)" % (type(n.op).__name__, go(n.operand))
         if isinstance(n, ast.BinOp) and type(n.op).__name__ in MOPS:
-            return "(PBin %s %s %s)" % (go(n.left), type(n.op).__name__, go(n.right))
+            return "(DBin %s %s %s)" % (go(n.left), type(n.op).__name__, go(n.right))
         raise ShapeChanged("%s: unsupported documentation row %r" % (what, src))
     return go(e)
 
@@ -524,6 +527,10 @@ def pyops_defs(repo, macro_names, c_ops):
                 raise ShapeChanged(what + ": (defop name lambda-list doc body) expected")
             name = f[1][1][1]
             if name in SKIPPED_DEFOPS:
+                if name == "and":
+                    if sx.show(f) != EXPECT_AND:
+                        raise ShapeChanged(PYOPS + ": the and function (used by comp-op) changed")
+                    seen.add("and")
                 continue
             params, rest = lambda_list(f[1][2], what)
             names = set(params) | ({rest} if rest else set())
@@ -544,7 +551,7 @@ def pyops_defs(repo, macro_names, c_ops):
                 all_names.append(x[1][1])
         else:
             raise ShapeChanged(what + ": unexpected top-level form")
-    for need in ("import", "defop", "_foldr", "comp-op"):
+    for need in ("import", "defop", "_foldr", "comp-op", "and"):
         if need not in seen:
             raise ShapeChanged(PYOPS + ": %s not found" % need)
     if all_names is None:
